@@ -440,6 +440,10 @@ def r4_rating_freshness(ctx):
                          f"a different number and its stored rating is "
                          f"overwritten by reading the map")
     ctx.floor("readers of the cached rating value", len(readers), 1)
+    # ... and what they read is a rating: an unrated curve has no entry
+    from .c09 import placeholder_never_cached
+    placeholder_never_cached(
+        ctx, ctx.repo.mod("indent").func("Indentation.rate_quality"))
     for m, q, f, n in readers:
         recv = norm(n.value)
         Rr = Resolver(f)
